@@ -118,6 +118,7 @@ func (w *reqResWriter) newFragment(initial bool, checksum Checksum) (*writableFr
 	// Create the frame
 	frame := w.conn.opts.FramePool.Get()
 	frame.Header.ID = w.mex.msgID
+	frame.Header.reserved1 = 0
 	frame.Header.messageType = message.messageType()
 
 	// Write the message into the fragment, reserving flags and checksum bytes
